@@ -287,12 +287,15 @@ pub fn tile3<A: Case, B: Case, C: Case>(load: bool) {
     let e3 = put(&c, &mut bytes, e2);
     let f = image(bytes, e3);
     let (_e, map) = map_of(&f, f.total);
+    // structure starts as the serializer placed them (concrete); each view must end at the next one
+    let (s1, s2, s3) = (e1 / 8, e2 / 8, e3 / 8);
+    assert!(s1 == a.size_in_elements() && s2 == s1 + b.size_in_elements() && s3 == s2 + c.size_in_elements());
     let o1 = at::<A>(&map, &f, 0, &a, load);
-    assert!(o1 == a.size_in_elements() && o1 * 8 == e1);
-    let o2 = at::<B>(&map, &f, o1, &b, load);
-    assert!(o2 == o1 + b.size_in_elements() && o2 * 8 == e2);
-    let o3 = at::<C>(&map, &f, o2, &c, load);
-    assert!(o3 == o2 + c.size_in_elements() && o3 == map.len());
+    assert!(o1 == s1);
+    let o2 = at::<B>(&map, &f, s1, &b, load);
+    assert!(o2 == s2);
+    let o3 = at::<C>(&map, &f, s2, &c, load);
+    assert!(o3 == s3 && o3 == map.len());
     drop(map);
 }
 
@@ -304,10 +307,12 @@ pub fn tile2<A: Case, B: Case>(load: bool) {
     let e2 = put(&b, &mut bytes, e1);
     let f = image(bytes, e2);
     let (_e, map) = map_of(&f, f.total);
+    let (s1, s2) = (e1 / 8, e2 / 8);
+    assert!(s1 == a.size_in_elements() && s2 == s1 + b.size_in_elements());
     let o1 = at::<A>(&map, &f, 0, &a, load);
-    assert!(o1 == a.size_in_elements() && o1 * 8 == e1);
-    let o2 = at::<B>(&map, &f, o1, &b, load);
-    assert!(o2 == o1 + b.size_in_elements() && o2 == map.len());
+    assert!(o1 == s1);
+    let o2 = at::<B>(&map, &f, s1, &b, load);
+    assert!(o2 == s2 && o2 == map.len());
     drop(map);
 }
 
